@@ -358,7 +358,7 @@ def check_defaulted_lengths(ctx, prog, tag, rule="C07.V15.defaulted-unknown-leng
     return n
 
 
-def _param_deps(f, op, depth=0):
+def _param_deps(f, op, depth=0, split=True):
     """parameters a value is computed from (through calls and aggregates, projection-sensitive where the facts are)"""
     out = set()
     if depth > 8 or op is None or "c" in op:
@@ -369,17 +369,17 @@ def _param_deps(f, op, depth=0):
         elif o.kind == "call":
             sub = set()
             for a in o.call.args:
-                sub |= _param_deps(f, a, depth + 1)
-            if len(sub - {"?"}) > 1:
+                sub |= _param_deps(f, a, depth + 1, split)
+            if split and len(sub - {"?"}) > 1:
                 sub = {"?"}          # a value built from both operands (`a.zip(b)`): which part is which is not tracked
             out |= sub
         elif o.kind == "agg":
             for a in o.rv["ops"]:
-                out |= _param_deps(f, a, depth + 1)
+                out |= _param_deps(f, a, depth + 1, split)
         elif o.kind in ("bin", "un", "cast") and getattr(o, "rv", None):
             for k in ("a", "b", "op"):
                 if isinstance(o.rv.get(k), dict):
-                    out |= _param_deps(f, o.rv[k], depth + 1)
+                    out |= _param_deps(f, o.rv[k], depth + 1, split)
     return out
 
 
